@@ -1414,8 +1414,19 @@ func (w *Worker) callBuiltin(caller *frame, fn *ssa.Builtin, args []value) value
 				w.logStore(&ext[i])
 			}
 		}
+		grown := len(arg0)+len(add) > cap(arg0)
 		for _, e := range add {
 			arg0 = append(arg0, copyVal(e))
+		}
+		if grown && cap(arg0) > len(arg0) {
+			// the spare capacity of a freshly grown backing array holds zero values of the element type
+			// (re-slicing up to cap must not expose untyped nils)
+			if sl, ok := fn.Type().(*types.Signature).Params().At(0).Type().Underlying().(*types.Slice); ok {
+				spare := arg0[len(arg0):cap(arg0)]
+				for i := range spare {
+					spare[i] = zero(sl.Elem())
+				}
+			}
 		}
 		return arg0
 
